@@ -407,6 +407,7 @@ fn random_rules(rng : &mut Rng) -> (Vec<Rule>, Option<String>)
     let mut used_targets : Vec<String> = vec![];
     let acyclic = rng.chance(2, 3);
     let allow_dup = rng.chance(1, 6);
+    let repeat_sources = rng.chance(1, 4);
     for k in 0..n
     {
         let nt = 1 + rng.weighted(&[5, 2, 1]);
@@ -431,9 +432,22 @@ fn random_rules(rng : &mut Rng) -> (Vec<Rule>, Option<String>)
                 else { format!("leaf{}", rng.below(8)) };
             if !sources.contains(&s) { sources.push(s); }
         }
+        // the parser keeps a path twice when it is written once flat and once through a bundle ("d/x" and "d" + tab "x")
+        if repeat_sources && rng.chance(1, 3)
+        {
+            let s = sources[rng.below(sources.len())].clone();
+            sources.push(s);
+        }
         sources.sort();
         used_targets.extend(targets.clone());
         rules.push(Rule::new(targets, sources, vec![format!("c{}", k)]));
+    }
+    // the same rule given twice (one rules file passed twice, a shared rule copied into two files): its targets are then
+    // targets of two rules
+    if rng.chance(1, 10)
+    {
+        let copy = rules[rng.below(rules.len())].clone();
+        rules.push(copy);
     }
     if !acyclic
     {
